@@ -15,6 +15,18 @@ into x509.BuildPrecertTBS / RemoveCTPoison / RemoveSCTList, ct.MerkleTreeLeafFro
 ForEmbeddedSCT, ctutil.VerifySCT / VerifySCTWithVerifier / LeafHash, x509util SCT list helpers and
 submission.ASN1MarshalSCTs; expected bytes = the builder applied to the model's expected TBS; expected SCT
 verdicts = the model's; the specification's serial / length / subidentifier octets are compared with the builder's.
+Reading back (last sentence of the property): Precert.tla clause OwnOctetsOnly - a certificate as the record of its
+OPTIONAL parts (version element, unique identifiers, extensions field, algorithm parameters), DecodeInto / Reported /
+ReadAll with the parameter `carry` (FALSE = the specification, TRUE = the reader that leaves absent parts as the
+previous certificate set them), the entry points (EntryPoints: singular / plural, certificate / TBSCertificate,
+DER / PEM / leaf entry, everything / the SCT list alone) with CallsOf / ResultAt.  MCPrecertBundle.tla enumerates every sequence of
+<= 3 (4) of nine certificate kinds; TLC checks the clause, REFUTES it for carry = TRUE (MCPrecertBundleRefute.cfg) and
+exports per bundle what every position reads back and which fields a carrying reader gets wrong.  Binding: TestBundle
+builds the kinds, reads every bundle through all nine entry points (x509.ParseCertificate / ParseCertificates /
+ParseTBSCertificate, x509util.CertificateFromPEM / CertificatesFromPEM / ParseSCTsFromCertificate DER + PEM,
+(*ct.MerkleTreeLeaf).X509Certificate / Precertificate) and
+compares every position with the embedded list, the builder's identifiers and - field by field - the same octets read
+alone; the replay of MCPrecert reads the chain of every final certificate through the same entry points.
 """
 import copy
 import json
@@ -40,6 +52,10 @@ ASSUME = [
     "serial numbers: 22 values at the boundaries of the two's complement encoding (both signs; 1, 2, 3, 20, 21 "
     "octets); unknown extensions with identifier arcs at the boundaries of the base-128 subidentifier (1..5 octets, "
     "joint first subidentifier 2.999) and values of 0..65536 octets at the boundaries of the length octets",
+    "reading back: nine certificate kinds (versions 1-3, unique identifiers, extensions field non-empty / empty / "
+    "absent, SCT lists of two and of one SCT, RSA / ECDSA / Ed25519 algorithm identifiers), sequences of <= 3 (quick) "
+    "/ 4 (thorough) of them; the unique identifiers and algorithm parameters are not fields of x509.Certificate and "
+    "are observed only through the field-by-field comparison with the same octets read alone",
 ]
 
 
@@ -112,11 +128,66 @@ def corrupt(cases):
     return out
 
 
+def corrupt_bundles(bundles):
+    """Four corrupted expectations (TestBundle must flag each): the embedded list not read back, an extension less,
+    another version, the extensions of the neighbour (what a carrying reader reports)."""
+    out = []
+
+    def first(pred, edit):
+        for b in bundles:
+            for i, e in enumerate(b["expect"]):
+                if pred(b, i, e):
+                    x = copy.deepcopy(b)
+                    edit(x, i)
+                    out.append(x)
+                    return
+
+    first(lambda b, i, e: e["sct"] != "none" and i > 0, lambda x, i: x["expect"][i].update(sct="none"))
+    first(lambda b, i, e: len(e["exts"]) >= 2 and e["sct"] == "none", lambda x, i: x["expect"][i]["exts"].pop())
+    first(lambda b, i, e: e["version"] == "v1" and i > 0, lambda x, i: x["expect"][i].update(version="v3"))
+    first(lambda b, i, e: i > 0 and "exts" in b["carried"][i] and "sct" not in b["carried"][i],
+          lambda x, i: x["expect"][i].update(exts=list(x["expect"][i - 1]["exts"])))
+    if len(out) != 4:
+        raise Infra("could not build the bundle canaries")
+    return out
+
+
+def bundles(ctx):
+    """The reading clause OwnOctetsOnly: model check, refute for the carrying reader, replay every bundle."""
+    cfg = ctx.pick("MCPrecertBundle.cfg", "MCPrecertBundleFull.cfg")
+    r = ctx.tlc("codec", "MCPrecertBundle", cfg, workers=1, timeout=1500)
+    bs = r.records.get("BUNDLE", [])
+    if not bs or len(bs) != r.distinct:
+        raise Infra("TLC exported %d bundles for %d states" % (len(bs), r.distinct))
+    kinds = r.records.get("KINDS", [])[:1]
+    if len(kinds) != 1:
+        raise Infra("TLC exported no KINDS table")
+    sens = sum(1 for b in bs for c in b["carried"] if c)
+    if sens == 0:
+        raise Infra("no bundle can tell a carrying reader from the specified one")
+    # the clause is not vacuous: the reader it excludes violates it on this case space
+    rv = ctx.tlc("codec", "MCPrecertBundle", "MCPrecertBundleRefute.cfg", workers=1, timeout=600,
+                 expect_violation=True, count=False)
+    if rv.violated != "BundleLaws":
+        raise Infra("the carrying reader was not refuted (violated=%r)" % rv.violated)
+    ctx.log("bundles: %d (%s), %d positions a carrying reader gets wrong" % (len(bs), cfg, sens))
+    ctx.go_test("c03", run="TestBundle$", name="c03bundle", timeout=1800,
+                env={"VERIF_BUNDLES": ctx.write_ndjson("bundles.ndjson", bs),
+                     "VERIF_KINDS": ctx.write_ndjson("kinds.ndjson", kinds),
+                     "VERIF_BUNDLE_CANARY": ctx.write_ndjson("bundle-canary.ndjson", corrupt_bundles(bs))})
+    return len(bs), cfg
+
+
 def run(ctx, replay=None):
     ctx.assumptions += ASSUME
     if replay:
         with open(replay) as f:
             rp = json.load(f)
+        if "bundle" in rp["replay"]:
+            ctx.go_test("c03", run="TestBundle$", name="c03bundle",
+                        env={"VERIF_BUNDLES": ctx.write_ndjson("replay-bundle.ndjson", [rp["replay"]["bundle"]]),
+                             "VERIF_KINDS": ctx.write_ndjson("replay-kinds.ndjson", [rp["replay"]["kinds"]])})
+            return
         path = ctx.write_ndjson("replay.ndjson", [rp["replay"]["case"]])
         ctx.go_test("c03", run="TestReplay$", env={"VERIF_CASES": path, "VERIF_RANDOMIZE": "0"})
         return
@@ -125,8 +196,9 @@ def run(ctx, replay=None):
     cases = r.records.get("CASE", [])
     if not cases or len(cases) != r.distinct:
         raise Infra("TLC exported %d cases for %d states" % (len(cases), r.distinct))
-    ctx.exhaustive = ("all %d cases of MCPrecert (%s) checked against the laws by TLC and replayed into the code"
-                      % (len(cases), ctx.pick("MCPrecert.cfg", "MCPrecertFull.cfg")))
+    exhaustive = ("all %d cases of MCPrecert (%s) checked against the laws by TLC and replayed into the code"
+                  % (len(cases), ctx.pick("MCPrecert.cfg", "MCPrecertFull.cfg")))
+    ctx.exhaustive = exhaustive
     der = r.records.get("DER", [])
     if len(der) != 1:
         raise Infra("TLC exported %d DER tables" % len(der))
@@ -136,3 +208,7 @@ def run(ctx, replay=None):
     # 2. replay into the real code (field tags of the default-encoding cases are re-materialized at random per seed)
     ctx.go_test("c03", run="TestReplay$", env={"VERIF_CASES": path, "VERIF_CANARY": canary, "VERIF_DER": derpath,
                                                "VERIF_ROUNDS": ctx.pick(1, 3)}, timeout=2400)
+    # 3. the reading clause: bundles of certificate kinds x entry points
+    nb, cfg = bundles(ctx)
+    ctx.exhaustive = exhaustive + ("; all %d bundles of MCPrecertBundle (%s) checked against OwnOctetsOnly by TLC and read "
+                                   "through every entry point" % (nb, cfg))
